@@ -100,7 +100,7 @@ func renderTree(n *openfgav1.UsersetTree_Node) string {
 func (e *Env) SrvExpand(ctx context.Context, s *server.Server, rq gen.Request) (string, error) {
 	resp, err := s.Expand(ctx, &openfgav1.ExpandRequest{
 		StoreId:              e.storeOf(rq),
-		AuthorizationModelId: e.ModelID,
+		AuthorizationModelId: e.modelOf(rq),
 		TupleKey:             &openfgav1.ExpandRequestTupleKey{Object: rq.Obj, Relation: rq.Rel},
 		ContextualTuples:     CtxTupleKeys(rq.CtxTuples),
 		Consistency:          consistency(rq.HC),
